@@ -21,8 +21,9 @@ M32 = 2 ** 32
 STARTS = {0: 0, 1: M32 - 3, 2: M32 - 2, 3: M32 - 1}     # model counter value (M = 4) -> real counter value
 
 
-def alloc_run(threads, start, uselock, emit=False):
-    cfg = tlc.cfg_text(constants={'Threads': '{' + ','.join('"%s"' % t for t in threads) + '}', 'M': '4', 'Start': str(start), 'UseLock': 'TRUE' if uselock else 'FALSE'},
+def alloc_run(threads, start, uselock, emit=False, allow_fail=False, give_back=False, m=4):
+    cfg = tlc.cfg_text(constants={'Threads': '{' + ','.join('"%s"' % t for t in threads) + '}', 'M': str(m), 'Start': str(start), 'UseLock': 'TRUE' if uselock else 'FALSE',
+                                  'AllowFail': 'TRUE' if allow_fail else 'FALSE', 'GiveBack': 'TRUE' if give_back else 'FALSE'},
                        invariants=['IdRange', 'UniqueLive', 'LockFreeWhenIdle'], view='View', action_constraints=['EmitEdge'] if emit else [])
     if emit:
         return tlc.cached_run('AdbAlloc', cfg, depends=('AdbAlloc',))
@@ -321,6 +322,17 @@ def body(ctx):
     if not r.violations:
         raise tlc.TlcError('vacuity: AdbAlloc without the lock does not violate UniqueLive')
     ctx.extra['sanity_mutation_violates'] = r.violations[0]['name']
+    # opens that fail after they took their id: spent ids are harmless, ids handed back are not (sanity mutation GiveBack)
+    r = alloc_run(['t1', 't2', 't3'], 0, True, allow_fail=True, m=8)
+    ctx.add_tlc(r, 'AdbAlloc 3 threads, opens may fail after Take (ids are spent)')
+    if r.violations:
+        ctx.violation('C14.' + r.violations[0]['name'] + '(design)', dict(kind='design-counterexample', config='AllowFail', trace=r.violations[0]['trace'][-3:]))
+        return
+    r = alloc_run(['t1', 't2', 't3'], 0, True, allow_fail=True, give_back=True, m=8)
+    ctx.add_tlc(r, 'AdbAlloc sanity mutation GiveBack (must violate)')
+    if not r.violations:
+        raise tlc.TlcError('vacuity: AdbAlloc with ids handed back does not violate UniqueLive')
+    ctx.extra['sanity_mutation_giveback_violates'] = r.violations[0]['name']
     # 2. spec->code
     for start in (0, 1, 2, 3):
         r = alloc_run(['t1', 't2'], start, True, emit=True)
